@@ -335,7 +335,7 @@ pub(crate) mod kani_verif {
     rec_harness!(c08_root_seed_n32, check_root_seed::<32>(), 36);
     // @h name=c08_root_seed_n24 props=C08,C09!,C03,C01 tier=quick kind=proved cfg=w8 funcs=ReferenceImplPrivateKey::generate_root_seed_and_lms_tree_identifier contract="same, n=24 (8 backing bytes beyond the seed must not influence the result)"
     rec_harness!(c08_root_seed_n24, check_root_seed::<24>(), 36);
-    // @h name=c08_root_seed_n16 props=C08,C09,C03,C01 tier=thorough kind=proved cfg=w8 funcs=ReferenceImplPrivateKey::generate_root_seed_and_lms_tree_identifier contract="same, n=16"
+    // @h name=c08_root_seed_n16 props=C08,C09,C03,C01 tier=extended kind=proved cfg=w8 funcs=ReferenceImplPrivateKey::generate_root_seed_and_lms_tree_identifier contract="same, n=16"
     rec_harness!(c08_root_seed_n16, check_root_seed::<16>(), 36);
 
     fn check_child_and_randomizer<const N: usize>() {
@@ -361,7 +361,7 @@ pub(crate) mod kani_verif {
     }
     // @h name=c08_child_seed_n32 props=C08,C09!,C03!,C07! tier=quick kind=proved cfg=w8 funcs=generate_child_seed_and_lms_tree_identifier;generate_signature_randomizer contract="child (seed, I) = H(I||q||0xfffe||0xff||seed), H(I||q||0xffff||0xff||seed)[..16]; randomizer C = H(I||q||0xfffd||0xff||seed); every parent seed/I/q, every hash function, n=32"
     rec_harness!(c08_child_seed_n32, check_child_and_randomizer::<32>(), 36);
-    // @h name=c08_child_seed_n24 props=C08,C09,C03,C07 tier=thorough kind=proved cfg=w8 funcs=generate_child_seed_and_lms_tree_identifier;generate_signature_randomizer contract="same, n=24"
+    // @h name=c08_child_seed_n24 props=C08,C09,C03,C07 tier=extended kind=proved cfg=w8 funcs=generate_child_seed_and_lms_tree_identifier;generate_signature_randomizer contract="same, n=24"
     rec_harness!(c08_child_seed_n24, check_child_and_randomizer::<24>(), 36);
 
     // ================================================================== C08: key blob encoding
